@@ -168,6 +168,33 @@ static void pair_case(uint64_t idx, rng_t *r) {
             STAT_INC("c11_signed_roundtrips");
         }
     }
+    /* the signed helpers with narrower signed holder types at their own full width (and below it) */
+    if (width == 32 || width == 16 || width == 8 || width == 31 || width == 15 || width == 7) {
+#define NARROW_SIGNED(T, TBITS)                                                                                        \
+        if (width <= TBITS && width >= TBITS - 1) {                                                                    \
+            T mag = (T)(((uint64_t)1 << (width - 1)) - 1);                                                             \
+            for (int k = 0; k < 4; k++) {                                                                              \
+                T x = (T)(k == 0 ? mag : k == 1 ? 1 : (T)(rng_next(r) % ((uint64_t)mag + 1)));                          \
+                if (k != 3) x = (T)-x;                                                                                 \
+                T val = x;                                                                                             \
+                if (val < 0)                                                                                           \
+                    _varintBitstreamPrepareSigned(val, width);                                                         \
+                uint64_t stored = (uint64_t)val & (((uint64_t)1 << width) - 1);                                        \
+                T res = (T)stored;                                                                                     \
+                g_ctx = "_varintBitstreamRestoreSigned";                                                               \
+                _varintBitstreamRestoreSigned(res, width);                                                             \
+                if (res != x) {                                                                                        \
+                    BFAIL("_varintBitstreamRestoreSigned", "signed-value-not-restored", #T " x=%" PRId64 " width %d restored %" PRId64, (int64_t)x, width, (int64_t)res); \
+                    return;                                                                                            \
+                }                                                                                                      \
+                STAT_INC("c11_signed_roundtrips_narrow_holder");                                                       \
+            }                                                                                                          \
+        }
+        NARROW_SIGNED(int32_t, 32)
+        NARROW_SIGNED(int16_t, 16)
+        NARROW_SIGNED(int8_t, 8)
+#undef NARROW_SIGNED
+    }
     /* the documented usage pattern: a run of mixed-width appends, read back at the end */
     if ((g % 64) == 0) {
         enum { NF = 1000 };
